@@ -159,7 +159,7 @@ CLAIMED["C12"] = dict(
          "from the snapshot's history section). TIE T: from_snapshot is sliced and re-translated from the current source on every run (harness/py2coq_tree.py -> "
          "coq/Gen/GenGeom.v): the statements that make ONE listed state active, with their parent-chain walk (restore_add), the loop over the stored "
          "configuration with its StateNotFoundError (restore_cfg_src) and the rebuilding of the history store (restore_hist_src) are proved equal to the "
-         "model's restore (C12_restore_step_is_the_source, C12_restore_cfg_is_the_source, C12_restore_history_is_the_source, C12_restore_is_the_source); "
+         "model's restore (C12_restore_step_is_the_source, C12_restore_cfg_is_the_source, C12_restore_history_is_the_source, C12_restore_is_the_source); the round trip is also stated over the SOURCE pieces only (C12_source_round_trip: what the sliced get_persisted_snapshot writes, fed to the translated from_snapshot, gives back configuration, history lookups, context, status, output); "
          "the five fields get_persisted_snapshot writes of the interpreter's own state are sliced from the returned dict and proved to denote the model's "
          "persist (C12_persist_is_the_source); the slicer refuses when the active set or the history store is touched anywhere else in from_snapshot. "
          "Partial: async continuations are checked by correspondence (every "
